@@ -28,6 +28,11 @@ def main():
     if not ok:
         print("\n".join(log.splitlines()[-40:]))
         rc = 1
+    ok, log = build_harness(["h_service"], profile="deep")
+    print("harness (unoptimised h_service):", "ok" if ok else "FAILED")
+    if not ok:
+        print("\n".join(log.splitlines()[-40:]))
+        rc = 1
     if hook_bins:
         ok, log = build_harness(hook_bins, hooks=True)
         print("harness (hooks):", "ok" if ok else "FAILED")
